@@ -72,10 +72,10 @@ def value_matches(res, neg, R, base, maxshift, p=None):
 
 
 # ----------------------------------------------------------------------------- concrete twins
-def frac_of(t):
-    """exact Fraction of a concrete finite raw mpf tuple"""
+def frac_of(t, shift=0):
+    """exact Fraction of a concrete finite raw mpf tuple, divided by 2**shift (keeps huge base exponents out of the oracle)"""
     s, m, e, b = t
-    v = Fraction(m) * (Fraction(2) ** e)
+    v = Fraction(m) * (Fraction(2) ** (e - shift))
     return -v if s else v
 
 
@@ -130,14 +130,14 @@ def round_fraction(x, p, rnd):
     return -v if neg else v
 
 
-def check_rounded(t, exact, p, rnd):
-    """concrete: raw mpf t must be the canonical correctly rounded value of Fraction `exact`"""
+def check_rounded(t, exact, p, rnd, shift=0):
+    """concrete: raw mpf t must be the canonical correctly rounded value of Fraction `exact` * 2**shift"""
     if not canonical_concrete(t, p):
         return False, 'non-canonical result %r' % (t,)
     if is_special(t):
         return False, 'special result %r for finite exact value' % (t,)
     want = round_fraction(exact, p, rnd) if p else exact
-    got = frac_of(t)
+    got = frac_of(t, shift)
     if got != want:
-        return False, 'got %s, correctly rounded value is %s (exact %s, prec %s, rnd %s)' % (got, want, exact, p, rnd)
+        return False, 'got %s, correctly rounded value is %s (exact %s, all times 2**%d; prec %s, rnd %s)' % (got, want, exact, shift, p, rnd)
     return True, ''
